@@ -1115,7 +1115,7 @@ func (ctx *RenderContext) EvaluateExpression(node Node) (interface{}, error) {
 			return 0, nil
 		case "-":
 			if num, ok := ctx.toNumber(operand); ok {
-				return -num, nil
+				return plusZero(-num), nil
 			}
 			return 0, nil
 		default:
@@ -1483,14 +1483,14 @@ func (ctx *RenderContext) evaluateBinaryOp(operator string, left, right interfac
 	case "-":
 		if lNum, lok := ctx.toNumber(left); lok {
 			if rNum, rok := ctx.toNumber(right); rok {
-				return lNum - rNum, nil
+				return plusZero(lNum - rNum), nil
 			}
 		}
 
 	case "*":
 		if lNum, lok := ctx.toNumber(left); lok {
 			if rNum, rok := ctx.toNumber(right); rok {
-				return lNum * rNum, nil
+				return plusZero(lNum * rNum), nil
 			}
 		}
 
@@ -1500,7 +1500,7 @@ func (ctx *RenderContext) evaluateBinaryOp(operator string, left, right interfac
 				if rNum == 0 {
 					return nil, errors.New("division by zero")
 				}
-				return lNum / rNum, nil
+				return plusZero(lNum / rNum), nil
 			}
 		}
 
@@ -1511,7 +1511,7 @@ func (ctx *RenderContext) evaluateBinaryOp(operator string, left, right interfac
 				if rNum == 0 {
 					return nil, errors.New("modulo by zero")
 				}
-				return math.Mod(lNum, rNum), nil
+				return plusZero(math.Mod(lNum, rNum)), nil
 			}
 		}
 
@@ -1519,7 +1519,7 @@ func (ctx *RenderContext) evaluateBinaryOp(operator string, left, right interfac
 		// Exponentiation operator
 		if lNum, lok := ctx.toNumber(left); lok {
 			if rNum, rok := ctx.toNumber(right); rok {
-				return math.Pow(lNum, rNum), nil
+				return plusZero(math.Pow(lNum, rNum)), nil
 			}
 		}
 
@@ -1652,6 +1652,15 @@ func (ctx *RenderContext) evaluateBinaryOp(operator string, left, right interfac
 	}
 
 	return nil, fmt.Errorf("unsupported binary operator: %s", operator)
+}
+
+// plusZero turns the negative zero of binary64 arithmetic (0 * -1, -0, 0 / -5, -4 % 2) into the
+// ordinary zero: the results of integer arithmetic are integers, and there is one integer zero
+func plusZero(f float64) float64 {
+	if f == 0 {
+		return 0
+	}
+	return f
 }
 
 // contains checks if a value is contained in a container (string, slice, array, map)
